@@ -75,13 +75,15 @@ Section Oracles.
   Proof. exact (main_failure_empty S G o_resolve o_getcwd o_load_config o_configure_logging o_log_decision
                                    o_analyze o_gmatch o_words o_after_prep o_after_rule o_print). Qed.
 
-  (* (2) a ConfigError from load_config / configure_logging is answered with an ask envelope *)
+  (* (2) a ConfigError from load_config / configure_logging is answered with an ask envelope on a
+     pre-execution event (and with nothing on PostToolUse, see C19) *)
   Theorem C06_failures_config : forall explicit inp m msg,
     (match explicit with Some m => Ok m | None => detect_mode_from_input inp end) = Ok m ->
     config_error_at S G o_resolve o_getcwd o_load_config o_configure_logging inp msg ->
+    (exists he, event_of inp = Ok he /\ is_post he = false) ->
     main_try explicit inp = Ok [J (envelope m Ask ($"config error: " ++ msg))].
-  Proof. exact (main_try_config_error S G o_resolve o_getcwd o_load_config o_configure_logging o_log_decision
-                                      o_analyze o_gmatch o_words o_after_prep o_after_rule o_print). Qed.
+  Proof. exact (main_try_config_error_pre S G o_resolve o_getcwd o_load_config o_configure_logging o_log_decision
+                                          o_analyze o_gmatch o_words o_after_prep o_after_rule o_print). Qed.
 
   (* (3) a top-level JSON value that is not an object (null, bool, number, str, list) always raises *)
   Theorem C06_failures_nonobject : forall explicit inp,
@@ -89,14 +91,13 @@ Section Oracles.
   Proof. exact (main_try_nonobject S G o_resolve o_getcwd o_load_config o_configure_logging o_log_decision
                                    o_analyze o_gmatch o_words o_after_prep o_after_rule o_print). Qed.
 
-  (* (4) a well-formed Claude / Gemini shell request in closed form: resolve, load, configure, analyze,
+  (* (4) a well-formed Claude / Gemini-shaped shell request, under any mode, in closed form: resolve, load, configure, analyze,
      log_decision in this order; the first one that raises decides ({} , or ask for ConfigError);
      only if all five return is the verdict of analyze printed. *)
   Theorem C06_failures_chain : forall m tn s cwds extra,
     In tn SHELL_TOOL_NAMES -> cwds <> [] ->
     is_post (field $"hook_event_name" extra (JStr $"PreToolUse")) = false ->
     py_in_tuple (field $"permission_mode" extra (JStr $"default")) BYPASS_MODES = false ->
-    is_cursor m = false ->
     main_try (Some m) (tool_input_shape tn (JStr s) (JStr cwds) extra)
     = wf_shell_run S G o_resolve o_load_config o_configure_logging o_log_decision o_analyze m s cwds.
   Proof. exact (wf_shell_run_spec S G o_resolve o_getcwd o_load_config o_configure_logging o_log_decision
@@ -114,7 +115,8 @@ Print Assumptions C06_failures_chain.
 (* (5) failures injected anywhere: take any world of oracles and any other world that differs from it only
    in that some calls - any of resolve, cwd, load_config, configure_logging, log_decision, analyze, the
    after-rule matcher, print; at any arguments; any number of them - raise an Exception instead of
-   returning.  Then the answer is the one of the first world, or {}, or the config-error ask.  Nothing
+   returning.  Then the answer is the one of the first world, or {}, or the config-error ask, or - on
+   PostToolUse - nothing.  Nothing
    else: a failure never produces an allow or a deny that was not there. *)
 Section Faults.
   Variables S G : Type.
@@ -139,7 +141,8 @@ Section Faults.
     let bad := @main S G f_resolve f_getcwd f_load_config f_configure_logging f_log_decision f_analyze o_gmatch o_words
                      f_after_prep f_after_rule f_print setup e (Ok inp) in
     stdout bad = stdout good \/ stdout bad = [J (JObj [])] \/
-    exists m msg, stdout bad = [J (envelope m Ask ($"config error: " ++ msg))].
+    (exists m msg, stdout bad = [J (envelope m Ask ($"config error: " ++ msg))]) \/
+    (post_event inp /\ stdout bad = []).
   Proof. exact (main_fault_monotone S G o_resolve o_getcwd o_load_config o_configure_logging o_log_decision o_analyze
                                     o_after_prep o_after_rule o_print f_resolve f_getcwd f_load_config f_configure_logging
                                     f_log_decision f_analyze f_after_prep f_after_rule f_print o_gmatch o_words). Qed.
